@@ -1,5 +1,6 @@
 import Mathlib.Tactic
 import Sentinel.Lemmas.PipelineCb
+import Sentinel.Lemmas.PipelineCouple
 import Sentinel.Props.C01
 import Sentinel.Props.C04
 import Sentinel.Props.C07
@@ -338,5 +339,202 @@ theorem sys_verdict_is_spec {R : Type} [LinearOrder R] (A : System.Arith R) (s :
     (verdict A s q .sys).isSome = System.specBlocked A q.inbound s.sysRules (sysView s) := by
   simp only [verdict, Option.isSome_map]
   exact Sentinel.C07.check_eq_specBlocked A s.sysRules (sysView s) q.inbound
+
+end Sentinel.INT
+
+/-! ## 3. accounting across modules
+
+The statistic component `ent` of the integrated state is **literally** C01's model (`Entry.step false`) run on the ledger
+history `eh` — one `entry` op per `api.Entry` call carrying the chain's verdict as C01's behaviour table
+`[node] / [pass|block] / stat.Slot`, one `trace` / `exit` op per call, and a statistic-free node-creating entry per valid
+flow rule at `load flow` — so C01's ledger theorems hold verbatim for the integrated chain, whatever slot decided. -/
+
+namespace Sentinel.INT
+open Sentinel.Pipe
+
+variable {R : Type} [LT R] [∀ a b : R, Decidable (a < b)]
+
+/-- a fresh case: nothing loaded, clock not started -/
+def fresh (l0 c0 : R) : St R := { load := l0, cpu := c0 }
+
+theorem panicFree_of_std (h : List Entry.TOp) (k : Entry.Key) (hs : StdHist h) : Entry.panicFree h k = true := by
+  induction h with
+  | nil => rfl
+  | cons x r ih =>
+    have hr : StdHist r := fun y hy e he => hs y (List.mem_cons_of_mem _ hy) e he
+    obtain ⟨t, op⟩ := x
+    cases op with
+    | entry e =>
+      have := hs (t, .entry e) (List.mem_cons_self ..) e rfl
+      simp [Entry.panicFree, ih hr, this]
+    | trace id err => simp [Entry.panicFree, ih hr]
+    | exit id err => simp [Entry.panicFree, ih hr]
+
+/-- **the statistic component is C01's model on the ledger history**, which is time-monotone, starts after time 0 and
+    contains no recovered panic (so C01's `panicFree` side condition holds on every node) -/
+theorem ent_is_entry_run (A : System.Arith R) (l0 c0 : R) (os : List (Pipe.Op R))
+    (hs : (run A (fresh l0 c0) os).1.started = true) :
+    (run A (fresh l0 c0) os).1.ent
+        = Entry.run false (run A (fresh l0 c0) os).1.t0 (run A (fresh l0 c0) os).1.eh.reverse ∧
+    Sentinel.C01.Mono (run A (fresh l0 c0) os).1.t0 (run A (fresh l0 c0) os).1.eh.reverse ∧
+    0 < (run A (fresh l0 c0) os).1.t0 ∧
+    Entry.lastT (run A (fresh l0 c0) os).1.t0 (run A (fresh l0 c0) os).1.eh ≤ (run A (fresh l0 c0) os).1.now ∧
+    (∀ k, Entry.panicFree (run A (fresh l0 c0) os).1.eh k = true) := by
+  have hinv : Inv (fresh l0 c0) := by intro h; simp [fresh] at h
+  have hl := inv_run A _ os hinv hs
+  refine ⟨?_, ?_, hl.pos, hl.last, fun k => panicFree_of_std _ k hl.std⟩
+  · rw [hl.ent]; simp [Entry.run]
+  · simp only [Sentinel.C01.Mono, List.reverse_reverse]; exact hl.mono
+
+/-- **pass + block = requested** on the integrated chain: at any read time not before the last op, in every window up to
+    10 s, on every resource node and on the inbound total, the passed plus the blocked tokens are the tokens requested by the
+    `api.Entry` calls accounted there — whichever of the five slots blocked (C01 `pass_plus_block_eq_requested` transferred) -/
+theorem pass_plus_block_integrated (A : System.Arith R) (l0 c0 : R) (os : List (Pipe.Op R))
+    (hs : (run A (fresh l0 c0) os).1.started = true) (k : Entry.Key) (Iv now : Nat)
+    (hnow : (run A (fresh l0 c0) os).1.now ≤ now) (hIv : Iv ≤ 10000) (b : Sentinel.LA.Bucket)
+    (hb : Entry.obsWindow (run A (fresh l0 c0) os).1.ent k Iv now = some b) :
+    b.pass + b.block = Entry.requested (Sentinel.C01.inWindow Iv now) (run A (fresh l0 c0) os).1.eh k := by
+  obtain ⟨e1, e2, e3, e4, e5⟩ := ent_is_entry_run A l0 c0 os hs
+  rw [e1] at hb
+  have := Sentinel.C01.pass_plus_block_eq_requested false _ _ e3 e2 k (Or.inr (by simpa using e5 k)) Iv now
+    (by simpa using le_trans e4 hnow) hIv b hb
+  simpa using this
+
+/-- **gauge = number of live passed entries**, never negative, on every node of the integrated chain
+    (C01 `gauge_is_live_count` transferred) -/
+theorem gauge_is_live_integrated (A : System.Arith R) (l0 c0 : R) (os : List (Pipe.Op R))
+    (hs : (run A (fresh l0 c0) os).1.started = true) (k : Entry.Key) (g : Int)
+    (hg : Entry.obsConc (run A (fresh l0 c0) os).1.ent k = some g) :
+    g = (Entry.live (run A (fresh l0 c0) os).1.eh k : Int) ∧ 0 ≤ g := by
+  obtain ⟨e1, e2, e3, _, e5⟩ := ent_is_entry_run A l0 c0 os hs
+  rw [e1] at hg
+  have := Sentinel.C01.gauge_is_live_count false _ _ e3 e2 k (Or.inr (by simpa using e5 k)) g hg
+  simpa using this
+
+/-- **every window of every node is the ledger's** (C01 `window_refines_ledger` transferred): what the `stat` op reads —
+    and what the system slot and the reused-view flow rules read — is the aligned-window sum over the ledger events -/
+theorem window_is_ledger_integrated (A : System.Arith R) (l0 c0 : R) (os : List (Pipe.Op R))
+    (hs : (run A (fresh l0 c0) os).1.started = true) (k : Entry.Key) (Iv now : Nat)
+    (hnow : (run A (fresh l0 c0) os).1.now ≤ now) (hIv : Iv ≤ 10000) :
+    Entry.obsWindow (run A (fresh l0 c0) os).1.ent k Iv now = Entry.ledWindow false (run A (fresh l0 c0) os).1.eh k Iv now := by
+  obtain ⟨e1, e2, e3, e4, _⟩ := ent_is_entry_run A l0 c0 os hs
+  rw [e1]
+  have := Sentinel.C01.window_refines_ledger false _ _ e3 e2 k Iv now (by simpa using le_trans e4 hnow) hIv
+  simpa using this
+
+end Sentinel.INT
+
+/-! ## 3b. the shared state: the isolation slot reads the resource node's gauge
+
+In the code the isolation slot reads `CurrentConcurrency()` of the resource node that `stat.Slot` maintains; in the product
+model the isolation component carries its own `gauge` (moved by the isolation model's steps only).  They never differ. -/
+
+namespace Sentinel.INT
+open Sentinel.Pipe
+
+variable {R : Type} [LT R] [∀ a b : R, Decidable (a < b)]
+
+theorem couple_fresh (l0 c0 : R) : Couple (fresh l0 c0) :=
+  ⟨fun _ => rfl,
+   fun id r => ⟨fun h => by simp [fresh, Iso.resOfId] at h, fun ⟨i, hi, _⟩ => by simp [fresh, Entry.info] at hi⟩,
+   fun _ _ => rfl, fun id i hi => by simp [fresh, Entry.info] at hi, fun _ => rfl⟩
+
+/-- **iso_gauge_coupled**: after every integrated history the isolation component's gauge of a resource is the
+    `CurrentConcurrency()` of the resource's node (0 while the node does not exist), which by `gauge_is_live_integrated` is the
+    number of live admitted entries of the resource — whichever slots blocked whatever in between. -/
+theorem iso_gauge_coupled (A : System.Arith R) (l0 c0 : R) (os : List (Pipe.Op R))
+    (hs : (run A (fresh l0 c0) os).1.started = true) (res : String) :
+    (run A (fresh l0 c0) os).1.iso.gauge res = ((Entry.obsConc (run A (fresh l0 c0) os).1.ent (some res)).getD 0) := by
+  have hc := couple_run A _ os (couple_fresh l0 c0)
+  obtain ⟨e1, e2, e3, _, _⟩ := ent_is_entry_run A l0 c0 os hs
+  rw [e1, Sentinel.C01.conc_refines_ledger false _ _ e3 e2 (some res), hc.gauge res]
+  simp only [Entry.ledConc, List.reverse_reverse]
+  split_ifs with hp
+  · rfl
+  · have hn : Entry.nodeExists (run A (fresh l0 c0) os).1.eh res = false := by simpa using hp
+    simp [(Entry.noNode_empty false _ res hn).2]
+
+/-- hence the isolation verdict of the integrated chain is `isolation.checkPass` on the node's own gauge -/
+theorem iso_verdict_reads_node (A : System.Arith R) (l0 c0 : R) (os : List (Pipe.Op R))
+    (hs : (run A (fresh l0 c0) os).1.started = true) (q : Req) :
+    verdict A (run A (fresh l0 c0) os).1 q .iso =
+      (Iso.checkPass (Iso.rulesOf (run A (fresh l0 c0) os).1.iso.rules (rname q.res))
+        ((Entry.obsConc (run A (fresh l0 c0) os).1.ent (some (rname q.res))).getD 0) (UInt32.ofNat q.batch)).map
+        fun p => Blk.iso p.1.idx p.2 := by
+  simp only [verdict]
+  rw [iso_gauge_coupled A l0 c0 os hs]
+
+end Sentinel.INT
+
+namespace Sentinel.INT
+open Sentinel.Pipe
+
+/-- the pass counters of a node array, as the flow model keeps them -/
+def passArr (a : Sentinel.LA.Arr Sentinel.LA.Bucket) : Sentinel.LA.Arr Nat :=
+  { n := a.n, L := a.L, slots := a.slots.map fun s => { start := s.start, val := s.val.pass } }
+
+/-- **Not proved** (full statement; validated on every correspondence run, where the flow decisions come from the copy and the
+    `stat` reads from `ent`): the flow component's private copy of the resource nodes' pass counters is the pass projection of
+    the shared nodes.  (Needs: `rname` injective, the leap-array step commutes with the projection, `reqs` = the live admitted
+    contexts of `ent`.) -/
+def flow_nodes_coupled_statement : Prop :=
+  ∀ (R : Type) [LT R] [∀ a b : R, Decidable (a < b)] (A : System.Arith R) (l0 c0 : R) (os : List (Pipe.Op R)),
+    (run A (fresh l0 c0) os).1.started = true →
+    ∀ k : Nat, FlowReject.lookup (run A (fresh l0 c0) os).1.flow.nodes k =
+      (Entry.findN (run A (fresh l0 c0) os).1.ent.nodes (rname k)).map fun n => passArr n.arr
+
+end Sentinel.INT
+
+/-! ## 4. non-vacuity: a concrete integrated history on the code-shaped machine (evaluated by `decide`) -/
+
+namespace Sentinel.INT
+open Sentinel.Pipe
+
+/-- resource `r1` with an isolation rule (1 in flight) and a flow rule (2 per second); carrier ℕ for the system slot -/
+def demoOps : List (Pipe.Op Nat) :=
+  [ .clock 1000,
+    .loadIso [("r1", 1)],
+    .loadFlow [{ res := 1, thr := .frac 2 1, iv := 1000 }],
+    .entry { id := 1, res := 1, inbound := true, batch := 1 },      -- pass
+    .entry { id := 2, res := 1, inbound := true, batch := 1 },      -- isolation blocks (flow would pass: 1 + 1 ≤ 2)
+    .exit 1 false,
+    .entry { id := 3, res := 1, inbound := true, batch := 1 },      -- pass (second token of the window)
+    .exit 3 true,
+    .entry { id := 4, res := 1, inbound := true, batch := 1 } ]     -- flow blocks first (isolation would pass: nothing in flight)
+
+/-- every outcome occurs, different slots are the first blocker at different moments, and the blocked entries left the
+    isolation gauge alone -/
+example :
+    (run Sentinel.C07.natArith (fresh 0 0) demoOps).2 =
+      [.none, .none, .none, .dec none, .dec (some (.iso 0 1)), .none, .dec none, .none, .dec (some (.flow 0))] ∧
+    (run Sentinel.C07.natArith (fresh 0 0) demoOps).1.iso.gauge "r1" = 0 ∧
+    (run Sentinel.C07.natArith (fresh 0 0) demoOps).1.started = true := by
+  decide
+
+/-- the hypotheses of `iso_cap_integrated` are satisfiable -/
+example : ({ fresh (0 : Nat) 0 with iso := { rules := Iso.loadRules [("r1", 1)] } } : St Nat).iso =
+    { rules := Iso.loadRules [("r1", 1)] } := rfl
+
+/-- an error-count breaker (trips at one error, timeout 100 ms, one probe) next to an isolation rule -/
+def demoCbOps : List (Pipe.Op Nat) :=
+  [ .clock 1000,
+    .loadCb [(0, { res := "r1", kind := .count, retryMs := 100, minReq := 1, statI := 1000, buckets := 2, maxRt := 0,
+                   probeNum := 1, reached := fun bad _ => decide (1 ≤ bad) })],
+    .loadIso [("r1", 5)],
+    .entry { id := 1, res := 1, inbound := false, batch := 1 },
+    .exit 1 true,                                                   -- the error trips the breaker (error → breaker counters)
+    .entry { id := 2, res := 1, inbound := false, batch := 1 },      -- blocked by the breaker until 1100
+    .clock 1100,
+    .entry { id := 3, res := 1, inbound := false, batch := 1 } ]     -- the probe
+
+/-- the hypotheses of `open_rejects_until_integrated` are reachable: after the error the breaker is open until 1100, and
+    the run shows the block, then the admitted probe -/
+example :
+    (run Sentinel.C07.natArith (fresh 0 0) (demoCbOps.take 5)).1.cb.brs.map (fun b => (b.id, b.st, b.nextRetry)) =
+      [(0, CB.St.opened, 1100)] ∧
+    (run Sentinel.C07.natArith (fresh 0 0) (demoCbOps.take 5)).1.cbLoaded = true ∧
+    (run Sentinel.C07.natArith (fresh 0 0) demoCbOps).2 =
+      [.none, .num 1, .none, .dec none, .none, .dec (some (.cb 0)), .none, .dec none] := by
+  decide
 
 end Sentinel.INT
